@@ -1,1 +1,157 @@
+(* C19 — property theorems only: each closed by [exact], each followed by Print Assumptions.
+   Vocabulary (Spec.v): in_grp x g : channel number x lies in group g = (Firstchan, Nchan);
+   gdisj / pdisj : two groups / all groups at different positions share no channel number;
+   lancero_geos cards : the (row, col, rows, cols) of every (card, column, row) triple in channel order;
+   dims_nonneg / dims_in_field : counts of columns and rows are >= 0 / fit the 16-bit code fields;
+   no_percent : a string without '%'; exts = [ljh; ljh3; off]. *)
+From Coq Require Import String Ascii Permutation.
+From Dastard Require Import Common.ZX C19.Model C19.Spec C19.Proofs.
+Open Scope Z_scope.
 
+(* Configure accepts a list of cards only if every card exists and none is named twice. *)
+Theorem configure_accepts_distinct_cards :
+  forall s avail req nsamp first sepCards sepCols geom s',
+    lancero_configure s avail req nsamp first sepCards sepCols geom = (s', true) ->
+    NoDup (map c_dev (l_active s')) /\ l_cfgerr s' = false /\
+    l_first s' = first /\ l_sepCards s' = sepCards /\ l_sepCols s' = sepCols /\
+    (zlen req <= zlen geom -> map c_dev (l_active s') = req).
+Proof. exact configure_active_distinct. Qed.
+Print Assumptions configure_accepts_distinct_cards.
+
+(* For EVERY configuration PrepareChannels accepts (any cards with distinct device numbers, any numbers of
+   columns and rows, any first-row number, any separations): position p of the tables belongs to triple p/2;
+   two positions carry the same channel number exactly when they are the error/feedback partners of one
+   (card, column, row) triple; names are err<n>/chan<n> of that number; all names are different. *)
+Theorem lancero_numbering_injective :
+  forall s s' t,
+    NoDup (map c_dev (l_active s)) -> dims_nonneg (l_active s) ->
+    lancero_prepare s = (s', Some t) ->
+    let n := zlen (lancero_geos (l_active s)) in
+    zlen (t_nums t) = 2 * n /\ zlen (t_names t) = 2 * n /\
+    (forall p q, 0 <= p < 2 * n -> 0 <= q < 2 * n ->
+       (znth 0 (t_nums t) p = znth 0 (t_nums t) q <-> p / 2 = q / 2)) /\
+    (forall i, 0 <= i < n ->
+       znth_s (t_names t) (2 * i) = err_name (znth 0 (t_nums t) (2 * i)) /\
+       znth_s (t_names t) (2 * i + 1) = chan_name (znth 0 (t_nums t) (2 * i + 1))) /\
+    NoDup (t_names t).
+Proof. exact lancero_numbering. Qed.
+Print Assumptions lancero_numbering_injective.
+
+(* The reported groups cover exactly the channel numbers in use, and no number lies in two groups. *)
+Theorem groups_cover :
+  forall s s' t,
+    NoDup (map c_dev (l_active s)) -> dims_nonneg (l_active s) ->
+    lancero_prepare s = (s', Some t) ->
+    (forall x, In x (t_nums t) <-> exists g, In g (t_groups t) /\ in_grp x g) /\ pdisj (t_groups t).
+Proof. exact lancero_groups_cover. Qed.
+Print Assumptions groups_cover.
+
+(* If the numbering loops, run without the validation, would give two different triples the same number,
+   PrepareChannels returns an error. *)
+Theorem collisions_rejected :
+  forall s,
+    NoDup (map c_dev (l_active s)) -> dims_nonneg (l_active s) ->
+    let nums := map e_num (fst (fst (fst (lancero_number s 0 false)))) in
+    (exists p q, 0 <= p < zlen nums /\ 0 <= q < zlen nums /\ p / 2 <> q / 2 /\
+                 znth 0 nums p = znth 0 nums q) ->
+    snd (lancero_prepare s) = None.
+Proof. exact lancero_collisions_rejected. Qed.
+Print Assumptions collisions_rejected.
+
+(* Packing and unpacking of row/column codes, for values in the 16-bit fields. *)
+Theorem rccode_roundtrip :
+  forall row col rows cols,
+    0 <= row < 65536 -> 0 <= col < 65536 -> 0 <= rows < 65536 -> 0 <= cols < 65536 ->
+    let c := rc_code row col rows cols in
+    rc_row c = row /\ rc_col c = col /\ rc_rows c = rows /\ rc_cols c = cols.
+Proof. exact rc_decode. Qed.
+Print Assumptions rccode_roundtrip.
+
+(* The code of every stream of an accepted Lancero configuration decodes to the true geometry of its triple. *)
+Theorem lancero_codes_true_geometry :
+  forall s s' t,
+    NoDup (map c_dev (l_active s)) -> dims_in_field (l_active s) ->
+    lancero_prepare s = (s', Some t) ->
+    forall p, 0 <= p < 2 * zlen (lancero_geos (l_active s)) ->
+      let g := znth geo0 (lancero_geos (l_active s)) (p / 2) in
+      let c := znth 0 (t_rc t) p in
+      rc_row c = g_row g /\ rc_col c = g_col g /\ rc_rows c = g_rows g /\ rc_cols c = g_cols g.
+Proof. exact lancero_codes_decode. Qed.
+Print Assumptions lancero_codes_true_geometry.
+
+(* Whatever the source object went through before, the tables depend on the present configuration only,
+   and the sub-frame facts are those of the present geometry. *)
+Theorem lancero_history_irrelevant :
+  forall act first sepCards sepCols e sd1 mx1 sd2 mx2,
+    snd (lancero_prepare (mkL act first sepCards sepCols sd1 mx1 e)) =
+    snd (lancero_prepare (mkL act first sepCards sepCols sd2 mx2 e)).
+Proof. exact lancero_history_independent. Qed.
+Print Assumptions lancero_history_irrelevant.
+
+Theorem lancero_subframe_facts_current :
+  forall s s' t,
+    lancero_prepare s = (s', Some t) ->
+    Forall (fun d => 1 <= c_nrows d) (l_active s) -> l_active s <> [] ->
+    t_subdiv t = first_rows (l_active s) /\ l_subdiv s' = first_rows (l_active s) /\
+    l_mixed s' = rows_mixed (l_active s).
+Proof. exact lancero_subframe_facts. Qed.
+Print Assumptions lancero_subframe_facts_current.
+
+(* The code before the fix: a second run with 6 rows on an object that had run with 4 rows reports
+   4 sub-frame divisions and "mixed row counts" although all cards agree. *)
+Theorem lancero_history_irrelevant_refuted_pre_fix :
+  exists t, snd (lancero_prepare_old old_s2) = Some t /\
+            t_subdiv t = 4 /\ first_rows (l_active old_s2) = 6 /\
+            l_mixed (fst (lancero_prepare_old old_s2)) = true /\ rows_mixed (l_active old_s2) = false.
+Proof. exact old_code_keeps_stale_subframe_facts. Qed.
+Print Assumptions lancero_history_irrelevant_refuted_pre_fix.
+
+(* Abaco: Sample accepts exactly the group sets in which no channel number occurs twice ... *)
+Theorem abaco_no_overlap_accepted :
+  forall pk, abaco_sample pk <> None <-> NoDup (gnums (group_keys pk [])).
+Proof. exact abaco_accept_iff. Qed.
+Print Assumptions abaco_no_overlap_accepted.
+
+(* ... and then reports the groups sorted, pairwise disjoint, covering exactly the numbers in use, with
+   distinct numbers and distinct names chan<n>. *)
+Theorem abaco_tables_identity :
+  forall pk sorted nchan,
+    abaco_sample pk = Some (sorted, nchan) ->
+    let t := abaco_prepare sorted in
+    Permutation sorted (group_keys pk []) /\ gsorted sorted /\
+    t_groups t = sorted /\ t_nums t = gnums sorted /\ NoDup (t_nums t) /\
+    t_names t = map chan_name (t_nums t) /\ NoDup (t_names t) /\ pdisj sorted /\
+    (forall x, In x (t_nums t) <-> exists g, In g (t_groups t) /\ in_grp x g).
+Proof. exact abaco_identity. Qed.
+Print Assumptions abaco_tables_identity.
+
+(* File names: for a base path without '%', the name of a file determines the stream name and the format. *)
+Theorem filenames_injective :
+  forall base today i n1 e1 n2 e2 f,
+    no_percent base -> no_percent today -> In e1 exts -> In e2 exts ->
+    filename (make_directory base today i) n1 e1 = Some f ->
+    filename (make_directory base today i) n2 e2 = Some f ->
+    n1 = n2 /\ e1 = e2.
+Proof. exact filenames_injective_lemma. Qed.
+Print Assumptions filenames_injective.
+
+(* Consequently two different streams of a source with distinct names never share an output file. *)
+Theorem no_shared_output_file :
+  forall names base today i e1 e2 p q f1 f2,
+    NoDup names -> no_percent base -> no_percent today ->
+    0 <= p < zlen names -> 0 <= q < zlen names -> p <> q -> In e1 exts -> In e2 exts ->
+    filename (make_directory base today i) (znth_s names p) e1 = Some f1 ->
+    filename (make_directory base today i) (znth_s names q) e2 = Some f2 ->
+    f1 <> f2.
+Proof. exact distinct_streams_distinct_files. Qed.
+Print Assumptions no_shared_output_file.
+
+(* Roach / default (Triangle, SimPulse, Erroring) sources: numbers 0..n-1, names chan<i>, one group (0, n). *)
+Theorem single_group_sources_identity :
+  forall n rc sd t,
+    In t [roach_prepare n; default_prepare n rc sd] ->
+    t_nums t = zrange 0 n /\ t_names t = map chan_name (t_nums t) /\ t_groups t = [(0, n)] /\
+    NoDup (t_nums t) /\ NoDup (t_names t) /\
+    (forall x, In x (t_nums t) <-> exists g, In g (t_groups t) /\ in_grp x g) /\ pdisj (t_groups t).
+Proof. exact single_group_sources. Qed.
+Print Assumptions single_group_sources_identity.
